@@ -489,7 +489,7 @@ func (t *Collection) VisitItemsRandom(
 	var j int
 	v := func(i *Item, depth uint64) bool {
 		if j == 0 {
-			blockStore = append(blockStore, i.Key)
+			blockStore = append(blockStore, append([]byte{}, i.Key...))
 			j = 1
 		} else if j >= lenBlock {
 			j = 0
@@ -525,7 +525,7 @@ func (t *Collection) VisitItemsRandom(
 					return visitor(itm, depth)
 				}
 				first = true
-				blockStore[i] = itm.Key
+				blockStore[i] = append([]byte{}, itm.Key...)
 				return false
 			}
 			if si == nil {
@@ -566,7 +566,7 @@ func (t *Collection) VisitItemsAscendBlockEx(
 	var j int
 	v := func(i *Item, depth uint64) bool {
 		if j == 0 {
-			blockStore = append(blockStore, i.Key)
+			blockStore = append(blockStore, append([]byte{}, i.Key...))
 			j = 1
 		} else if j >= lenBlock {
 			j = 0
